@@ -105,12 +105,18 @@ impl Command for CommandImpl {
                 (start, end)
             };
 
-            let start_index: usize = start.try_into().unwrap();
-            let end_index: usize = end.try_into().unwrap();
+            let (start_index, end_index): (usize, usize) =
+                match (start.try_into(), end.try_into()) {
+                    (Ok(start_index), Ok(end_index)) => (start_index, end_index),
+                    _ => return CommandResult::Error("Invalid index provided.".to_string()),
+                };
 
-            let sub_string = &string_value.as_str()[start_index..end_index];
-
-            CommandResult::Continue(Some(sub_string.to_string()))
+            match string_value.as_str().get(start_index..end_index) {
+                Some(sub_string) => CommandResult::Continue(Some(sub_string.to_string())),
+                None => CommandResult::Error(
+                    "Index is not on a character boundary or out of bounds.".to_string(),
+                ),
+            }
         }
     }
 }
